@@ -88,10 +88,14 @@ func genWorkload(t *rapid.T) Workload {
 	nk := rapid.IntRange(3, 6).Draw(t, "nkeys")
 	seen := map[string]bool{}
 	for len(w.Keys) < nk {
-		k := rapid.SampledFrom(vlib.Pool[:30]).Draw(t, "key")
+		k := rapid.SampledFrom(vlib.Pool).Draw(t, "key")
 		if !seen[k] {
 			seen[k] = true
 			w.Keys = append(w.Keys, vlib.Str(k))
+			if sib, ok := vlib.Sibling[k]; ok && !seen[sib] && len(w.Keys) < nk && rapid.Bool().Draw(t, "sibling") {
+				seen[sib] = true
+				w.Keys = append(w.Keys, vlib.Str(sib))
+			}
 		}
 	}
 	return w
@@ -177,7 +181,7 @@ func runWorkload(w Workload, dir string, hangLimit time.Duration) (res runResult
 				nops := 1 + rng.Intn(w.MaxOps)
 				type op struct {
 					get, del bool
-					k       int
+					k        int
 				}
 				ops := make([]op, nops)
 				for i := range ops {
@@ -570,3 +574,297 @@ func TestC05Conc(t *testing.T) { concTest(t, "C05") }
 func TestC06Conc(t *testing.T) { concTest(t, "C06") }
 func TestC07Conc(t *testing.T) { concTest(t, "C07") }
 func TestC15Conc(t *testing.T) { concTest(t, "C15") }
+
+// ---- contention stress: many goroutines hammering Begin/Commit on one or two counters ------
+//
+// A serializability bug that needs one goroutine to lose the CPU inside a few instructions of
+// the oracle (e.g. between taking a read timestamp and registering it) is out of reach of the
+// history-recording workloads above. Here the oracle's mutex is kept saturated (that also puts
+// sync.Mutex into starvation mode, where Unlock hands over and yields), and the oracle is a
+// counter: every acknowledged read-modify-write increment must be reflected in the final value.
+
+type Stress struct {
+	Cfg      Cfg `json:"cfg"`
+	Writers  int `json:"writers"`
+	Readers  int `json:"readers"`
+	Counters int `json:"counters"`
+	Incs     int `json:"increments_per_writer"`
+	Procs    int `json:"gomaxprocs"`
+}
+
+var stressOvertaken, stressProbed atomic.Int64
+
+const nslots = 4
+
+func slotKey(i int) string { return fmt.Sprintf("slot%d", i) }
+
+func runStress(s Stress, dir string) (problems []problem, acked int64) {
+	defer func() {
+		// (filled below through the closure counters)
+	}()
+	_ = os.RemoveAll(dir)
+	defer os.RemoveAll(dir)
+	old := runtime.GOMAXPROCS(s.Procs)
+	defer runtime.GOMAXPROCS(old)
+	db, err := originium.Open(dir, toConfig(s.Cfg))
+	if err != nil {
+		return []problem{{"panic", "Open failed: " + err.Error()}}, 0
+	}
+	var mu sync.Mutex
+	prob := func(kind, msg string) {
+		mu.Lock()
+		if len(problems) < 5 {
+			problems = append(problems, problem{kind, msg})
+		}
+		mu.Unlock()
+	}
+	keys := make([]string, s.Counters)
+	for i := range keys {
+		keys[i] = fmt.Sprintf("ctr%d", i)
+	}
+	_ = db.Update(func(tx *originium.Txn) error {
+		for _, k := range keys {
+			if err := tx.Set(k, []byte("0")); err != nil {
+				return err
+			}
+		}
+		return nil
+	})
+	ack := make([]atomic.Int64, s.Counters)
+	var frozen [nslots]atomic.Bool
+	_ = db.Update(func(tx *originium.Txn) error {
+		for i := 0; i < nslots; i++ {
+			if err := tx.Set(slotKey(i), []byte("init")); err != nil {
+				return err
+			}
+		}
+		return nil
+	})
+	var stop atomic.Bool
+	var overtaken, probed atomic.Int64
+	var wg, rg sync.WaitGroup
+	for r := 0; r < s.Readers; r++ {
+		rg.Add(1)
+		go func(r int) {
+			defer rg.Done()
+			defer func() {
+				if rc := recover(); rc != nil {
+					prob("panic", fmt.Sprintf("reader %d panicked: %v", r, rc))
+				}
+			}()
+			probeSeq := 0
+			for r%2 == 1 && !stop.Load() {
+				// slot probe (C06/C07): read ONE rarely written key; if the read watermark overtakes this
+				// transaction and the slot has meanwhile been overwritten, freeze the slot, let the
+				// engine run on, then write it: the commit must be refused
+				probeSeq++
+				sl := (r + probeSeq) % nslots
+				tx := db.Begin(true)
+				s0, sok := tx.Get(slotKey(sl))
+				if !originium.VerifTxnOvertaken(tx) {
+					tx.Discard()
+					continue
+				}
+				overtaken.Add(1)
+				changed := false
+				_ = db.View(func(f *originium.Txn) error {
+					if v, ok := f.Get(slotKey(sl)); ok != sok || string(v) != string(s0) {
+						changed = true
+					}
+					return nil
+				})
+				if !changed || frozen[sl].Swap(true) {
+					tx.Discard()
+					continue
+				}
+				for i := 0; i < 1500 && !stop.Load(); i++ {
+					_ = db.View(func(f *originium.Txn) error { f.Get(slotKey(sl)); return nil })
+					runtime.Gosched()
+				}
+				_ = tx.Set(slotKey(sl), []byte("mine"))
+				probed.Add(1)
+				err := tx.Commit()
+				frozen[sl].Store(false)
+				if err == nil {
+					prob("not_serializable", fmt.Sprintf("a transaction read %q = (%q,%v) from the store, another committed transaction then overwrote it (a fresh read showed a different value), yet the first one's write to %q was committed instead of refused (lost update)", slotKey(sl), s0, sok, slotKey(sl)))
+					stop.Store(true)
+				}
+			}
+			for !stop.Load() {
+				tx := db.Begin(true)
+				k := keys[r%len(keys)]
+				v1, ok1 := tx.Get(k)
+				v2, ok2 := tx.Get(k)
+				if ok1 != ok2 || string(v1) != string(v2) {
+					prob("snapshot_history", fmt.Sprintf("one transaction read %q twice and got (%q,%v) then (%q,%v)", k, v1, ok1, v2, ok2))
+				}
+				if !originium.VerifTxnOvertaken(tx) {
+					tx.Discard()
+					continue
+				}
+				// STEERING ONLY: the read watermark has moved past this open transaction, which makes
+				// it the one worth keeping open. The probe below is valid for ANY transaction: it read k
+				// from the store, k is then overwritten by others, so (a) it must keep reading the same
+				// value and (b) its own write-commit must be refused.
+				overtaken.Add(1)
+				// a private key: read it from the store, overwrite it ONCE from outside, give the
+				// engine time to forget that commit, then try to commit a write to it
+				kp := fmt.Sprintf("probe%d", r)
+				p0, pok := tx.Get(kp)
+				probeSeq++
+				if err := db.Update(func(f *originium.Txn) error { return f.Set(kp, []byte(fmt.Sprintf("o%d.%d", r, probeSeq))) }); err != nil {
+					tx.Discard()
+					continue
+				}
+				for i := 0; i < 3000 && !stop.Load(); i++ {
+					_ = db.View(func(f *originium.Txn) error { f.Get(kp); return nil })
+					if i%100 == 0 {
+						_ = db.Update(func(f *originium.Txn) error { return f.Set(fmt.Sprintf("pad%d", r), []byte("p")) })
+						// the hot counter it read first: others keep overwriting it, flushes and compactions
+						// keep merging its versions; this transaction must keep reading its snapshot value
+						if v3, ok3 := tx.Get(k); ok3 != ok1 || string(v3) != string(v1) {
+							prob("snapshot_history", fmt.Sprintf("an open transaction read %q as (%q,%v) and, after others overwrote it and compactions ran, as (%q,%v)", k, v1, ok1, v3, ok3))
+							stop.Store(true)
+						}
+					}
+					runtime.Gosched()
+				}
+				if p1, ok1b := tx.Get(kp); ok1b != pok || string(p1) != string(p0) {
+					prob("snapshot_history", fmt.Sprintf("an open transaction read %q as (%q,%v) and later as (%q,%v)", kp, p0, pok, p1, ok1b))
+				}
+				_ = tx.Set(kp, []byte("mine"))
+				probed.Add(1)
+				if err := tx.Commit(); err == nil {
+					prob("not_serializable", fmt.Sprintf("a transaction read %q = (%q,%v) from the store, another transaction then overwrote %q and committed, yet the first one's own write to %q was committed instead of refused (lost update)", kp, p0, pok, kp, kp))
+					stop.Store(true)
+				}
+			}
+		}(r)
+	}
+	for w := 0; w < s.Writers; w++ {
+		wg.Add(1)
+		go func(w int) {
+			defer wg.Done()
+			defer func() {
+				if rc := recover(); rc != nil {
+					prob("panic", fmt.Sprintf("writer %d panicked: %v", w, rc))
+				}
+			}()
+			ki := w % len(keys)
+			for done := 0; done < s.Incs; {
+				tx := db.Begin(true)
+				v, ok := tx.Get(keys[ki])
+				if !ok {
+					prob("snapshot_history", "counter vanished")
+					tx.Discard()
+					return
+				}
+				var n int
+				fmt.Sscanf(string(v), "%d", &n)
+				if err := tx.Set(keys[ki], []byte(fmt.Sprintf("%d", n+1))); err != nil {
+					prob("unexpected_error", err.Error())
+					tx.Discard()
+					return
+				}
+				// every commit also (blindly) rewrites one of a few slot keys, unless a probe froze it
+				if sl := (w + done) % nslots; !frozen[sl].Load() {
+					_ = tx.Set(slotKey(sl), []byte(fmt.Sprintf("s%d.%d", w, done)))
+				}
+				err := tx.Commit()
+				if err == nil {
+					ack[ki].Add(1)
+					done++
+				} else if !errors.Is(err, originium.ErrConflictTxn) {
+					prob("unexpected_error", err.Error())
+					return
+				}
+			}
+		}(w)
+	}
+	fin := make(chan struct{})
+	go func() { wg.Wait(); close(fin) }()
+	if v := await(fin, "increment workers did not finish"); v != nil {
+		stop.Store(true)
+		return append(problems, *v), 0
+	}
+	stop.Store(true)
+	rg.Wait()
+	stressOvertaken.Add(overtaken.Load())
+	stressProbed.Add(probed.Load())
+	_ = db.View(func(tx *originium.Txn) error {
+		for i, k := range keys {
+			v, _ := tx.Get(k)
+			var n int64
+			fmt.Sscanf(string(v), "%d", &n)
+			acked += ack[i].Load()
+			if n != ack[i].Load() && len(problems) == 0 {
+				prob("not_serializable", fmt.Sprintf("%d read-modify-write increments of %q were acknowledged but the counter reads %d (lost update)", ack[i].Load(), k, n))
+			}
+		}
+		return nil
+	})
+	cl := make(chan struct{})
+	go func() { db.Close(); close(cl) }()
+	if v := await(cl, "Close after the stress did not return"); v != nil {
+		return append(problems, *v), acked
+	}
+	originium.VerifStopOracle(db)
+	return problems, acked
+}
+
+func stressTest(t *testing.T, prop string) {
+	rec := vlib.For(prop, "Test"+prop+"Stress")
+	dir := filepath.Join(scratch(t), "dbstress")
+	one := func(s Stress, cj []byte, fatal func(string, ...any)) {
+		rec.Begin(cj)
+		probs, acked := runStress(s, dir)
+		var mine *problem
+		for i := range probs {
+			if owns[prop][probs[i].kind] && mine == nil {
+				mine = &probs[i]
+			} else if strings.HasPrefix(probs[i].kind, "inconclusive") {
+				rec.Note(probs[i].msg)
+				vlib.FlushAll(false)
+				os.Exit(3)
+			}
+		}
+		rec.Count("stress_acknowledged_increments", acked)
+		rec.Count("stress_transactions_overtaken_by_read_mark", stressOvertaken.Swap(0))
+		rec.Count("stress_overtaken_transactions_probed", stressProbed.Swap(0))
+		rec.End(cj, mine == nil && acked >= 100, "contention_stress")
+		if mine != nil {
+			rec.Violation(mine.kind, mine.msg, cj, nil)
+			if mine.kind == "deadlock" {
+				vlib.FlushAll(false)
+				os.Exit(1)
+			}
+			fatal("%s: %s", mine.kind, mine.msg)
+		}
+	}
+	if rc := vlib.ReplayCase(); rc != nil {
+		var s Stress
+		if err := json.Unmarshal(rc, &s); err != nil {
+			t.Fatalf("bad replay case: %v", err)
+		}
+		for i := 0; i < 20; i++ {
+			one(s, rc, t.Fatalf)
+		}
+		return
+	}
+	rapid.Check(t, func(rt *rapid.T) {
+		s := Stress{
+			Cfg: Cfg{SkipListMaxLevel: 9, SkipListP: 0.5, MemThreshold: rapid.SampledFrom([]int{60, 200, 200, 600}).Draw(rt, "mem"),
+				ImmBuf: rapid.SampledFrom([]int{0, 2, 10}).Draw(rt, "immBuf"), Block: 4096, L0Target: rapid.SampledFrom([]int{1, 2, 5}).Draw(rt, "l0"), Ratio: 2},
+			Writers:  rapid.SampledFrom([]int{16, 32, 32}).Draw(rt, "writers"),
+			Readers:  rapid.SampledFrom([]int{32, 64, 64}).Draw(rt, "readers"),
+			Counters: rapid.IntRange(1, 2).Draw(rt, "counters"),
+			Incs:     rapid.SampledFrom([]int{80, 120, 160}).Draw(rt, "incs"),
+			Procs:    rapid.SampledFrom([]int{2, 4, 4}).Draw(rt, "procs"),
+		}
+		one(s, vlib.JSON(s), rt.Fatalf)
+	})
+}
+
+func TestC06Stress(t *testing.T) { stressTest(t, "C06") }
+func TestC05Stress(t *testing.T) { stressTest(t, "C05") }
+func TestC12Stress(t *testing.T) { stressTest(t, "C12") }
